@@ -265,8 +265,8 @@ func RunFaultBlob(r *Run) {
 		return
 	}
 	small := len(base) <= 600
-	plan := c.Pick("plan", 3, 3, 3, 4, 2, 2, 2)
-	r.Res.Sample["plan"] = []string{"truncations", "bit-flips", "substitutions", "framing-aware", "splice", "random", "double"}[plan]
+	plan := c.Pick("plan", 3, 3, 3, 4, 2, 2, 2, 3)
+	r.Res.Sample["plan"] = []string{"truncations", "bit-flips", "substitutions", "framing-aware", "splice", "random", "double", "synthetic-tag-streams"}[plan]
 	switch plan {
 	case 0: // every truncation length
 		for n := 0; n < len(base); n++ {
@@ -493,6 +493,67 @@ func RunFaultBlob(r *Run) {
 				copy(m[1:], putUvarint(uint64(n-2)))
 			}
 			if !bc.try(m, "random") {
+				return
+			}
+		}
+	case 7: // synthetic tag streams inside intact framing: exercises the tape rebuild state machine directly
+		rs, err := explode(base)
+		if err != nil {
+			r.Res.Harness = "framing walker cannot read an unmodified blob: " + err.Error()
+			return
+		}
+		alphabet := []byte{'r', '{', '}', '[', ']', '"', 'l', 'u', 'd', 'e', 'n', 't', 'f', 'N', 'N', 'N', 0}
+		for k := 0; k < 600; k++ {
+			n := 1 + c.Intn("synlen", 10)
+			tags := make([]byte, n)
+			slots := 0
+			var vals []byte
+			for i := range tags {
+				t := alphabet[c.Intn("syntag", len(alphabet))]
+				tags[i] = t
+				word := func() {
+					v := []uint64{0, 1, 2, 3, uint64(n), uint64(slots + 1), uint64(slots + 2), ^uint64(0), uint64(-int64(slots))}[c.Intn("synval", 9)]
+					vals = binary.LittleEndian.AppendUint64(vals, v)
+				}
+				switch t {
+				case '"', 'e':
+					word()
+					word()
+					slots += 2
+				case 'l', 'u', 'd':
+					word()
+					slots += 2
+				case 'r', '{', '[':
+					word()
+					slots++
+				default:
+					slots++
+				}
+			}
+			if c.Intn("synshortvals", 8) == 0 && len(vals) >= 8 {
+				vals = vals[:len(vals)-8]
+			}
+			m := *rs
+			m.raw[2], m.declared[2] = tags, uint64(len(tags))
+			m.raw[3], m.declared[3] = vals, uint64(len(vals))
+			if len(vals) == 0 {
+				m.empty[3] = true
+			} else {
+				m.empty[3] = false
+				if m.typ[3] == 0 && rs.empty[3] {
+					m.typ[3] = 0
+				}
+			}
+			d := []int{0, 0, 0, -1, 1, -2, 2}[c.Intn("syndelta", 7)]
+			if slots+d < 0 {
+				d = 0
+			}
+			m.tapeSize = uint64(slots + d)
+			out, err := m.assemble()
+			if err != nil {
+				continue
+			}
+			if !bc.try(out, "synthetic-tags") {
 				return
 			}
 		}
